@@ -33,7 +33,7 @@ struct PoolEngine : Engine {
 	const char * property() const override { return "C18"; }
 	std::string rule() const override {
 		return "plan = well-bracketed history (1..40 ops) over INIT, DRAIN, FREE (depth 0), CONVERT(doc,fmt,ext), PARSE_HOLD(slot,doc), INSPECT(slot) (only while the "
-		       "outermost drain after the parse has not happened), RELEASE(slot); nested pairs, re-init after free, CLI and batch-mode sequences seeded in; slab-size knob in "
+		       "outermost drain after the parse has not happened), RELEASE(slot), CLI (the command line tool's own main() in-process, single file or batch); nested pairs, re-init after free, CLI and batch-mode sequences seeded in; slab-size knob in "
 		       "{1,2,3,17,64,1024}; documents from a dozen tokens to several slabs. Distinct = plan hash; non-trivial = contains a nested init/drain pair or a re-init after free, and >=1 slab boundary crossed.";
 	}
 
